@@ -3,8 +3,9 @@ use crate::driver::PropSpec;
 
 pub mod c01;
 pub mod c04;
+pub mod c12;
 pub mod common;
 
 pub fn all() -> Vec<PropSpec> {
-    vec![c01::spec(), c04::spec()]
+    vec![c01::spec(), c04::spec(), c12::spec()]
 }
